@@ -97,36 +97,41 @@ def scope(chk, facts):
 
 def policy(chk, facts):
     rule = "C05.PRINT.policy"
-    f = get_fn(chk, facts, rule, "<" + P + "TemplateBody as std::fmt::Display>::fmt")
-    if f is None:
-        return
     parts = ("effect", "principal_constraint", "action_constraint", "resource_constraint", "non_scope_constraints")
+    # both printers of a whole policy (TemplateBody and StaticPolicy) are held to the same form
+    for owner, accmark in (("TemplateBody", ("TemplateBody",)), ("StaticPolicy", ("StaticPolicy", "TemplateBody"))):
+        f = get_fn(chk, facts, rule, "<" + P + owner + " as std::fmt::Display>::fmt")
+        if f is None:
+            continue
 
-    def cl(c, t):
-        last = c.split("::")[-1]
-        return ["ACC:" + last] if last in parts and "TemplateBody" in c else None
-    L = shape.Labels(f, None, None, call_labels=cl)
-    ss = [s for s in fmtstr.sites(f, None, L) if s["pieces"] is not None and s["args"]]
-    seqs = []
-    for s in sorted(ss, key=lambda s: s["line"] or 0):
-        toks = fmtstr.tokens(s["pieces"])
-        k = 0
-        seq = []
-        for tk in toks:
-            if tk == "{}":
-                a = s["args"][k] if k < len(s["args"]) else {"labels": set()}
-                seq.append("<" + ",".join(sorted(x[4:] for x in a["labels"] if x.startswith("ACC:"))) + ">")
-                k += 1
-            else:
-                seq.append(tk)
-        seqs.append("".join(seq))
-    scope_ok = "<effect>(<principal_constraint>,<action_constraint>,<resource_constraint>)" in seqs
-    chk.ob(rule, "scope-order", scope_ok, "a policy prints %s (required: effect ( principal , action , resource ))" % [q for q in seqs if q.startswith("<effect>")], where=f.where(), fn=f.name, key="%s:scope-order" % rule)
-    body = [q for q in seqs if "non_scope_constraints" in q]
-    ok = body == ["when{<non_scope_constraints>};"]
-    chk.ob(rule, "body", ok, "the condition is printed as %s (required: when { condition } ;  — the stored condition already contains the negated unless clauses)" % body, where=f.where(), fn=f.name, key="%s:body" % rule)
-    ann = any(callee(t).endswith("fmt::Display>::fmt") and "annotations" in str(panics_field(f, t)) for _, t in f.calls())
-    chk.ob(rule, "annotations", ann, "annotations are printed (before the effect): %s" % ann, where=f.where(), fn=f.name)
+        def cl(c, t, accmark=accmark):
+            last = c.split("::")[-1]
+            return ["ACC:" + last] if last in parts and any(m in c for m in accmark) else None
+        L = shape.Labels(f, None, None, call_labels=cl)
+        ss = [s for s in fmtstr.sites(f, None, L) if s["pieces"] is not None and s["args"]]
+        seqs = []
+        for s in sorted(ss, key=lambda s: s["line"] or 0):
+            toks = fmtstr.tokens(s["pieces"])
+            k = 0
+            seq = []
+            for tk in toks:
+                if tk == "{}":
+                    a = s["args"][k] if k < len(s["args"]) else {"labels": set()}
+                    seq.append("<" + ",".join(sorted(x[4:] for x in a["labels"] if x.startswith("ACC:"))) + ">")
+                    k += 1
+                else:
+                    seq.append(tk)
+            seqs.append("".join(seq))
+        scope_ok = "<effect>(<principal_constraint>,<action_constraint>,<resource_constraint>)" in seqs
+        chk.ob(rule, owner + ":scope-order", scope_ok, "%s prints %s (required: effect ( principal , action , resource ))" % (owner, [q for q in seqs if q.startswith("<effect>")]), where=f.where(), fn=f.name,
+               key="%s:%s:scope-order" % (rule, owner))
+        body = [q for q in seqs if "non_scope_constraints" in q]
+        ok = body == ["when{<non_scope_constraints>};"]
+        chk.ob(rule, owner + ":body", ok, "%s prints the condition as %s (required: when { condition } ;  — the stored condition already contains the negated unless clauses)" % (owner, body), where=f.where(), fn=f.name,
+               key="%s:%s:body" % (rule, owner))
+        ann = any("annotations" in str(panics_field(f, t)) for _, t in f.calls()) or any(
+            isinstance(e, list) and e[0] == "f" and e[2] == "annotations" for _, s_ in f.stmts() if s_[0] == "a" for p_ in shape._rv_places(s_[2]) for e in p_[1:])
+        chk.ob(rule, owner + ":annotations", ann, "%s prints the annotations: %s" % (owner, ann), where=f.where(), fn=f.name)
     # effect keywords
     e = facts.fn("<" + P + "Effect as std::fmt::Display>::fmt")
     if e is None:
